@@ -21,6 +21,7 @@ NRAND = {"quick": 500, "thorough": 12000}
 NPROJ = {"quick": 160, "thorough": 3000}
 NMIN = {"quick": 150, "thorough": 3000}
 NGROW = {"quick": 150, "thorough": 3000}
+NREGSC = {"quick": 90, "thorough": 1500}
 CASE_TIMEOUT = {"quick": 300, "thorough": 900}
 NSAMPLES = 5
 ABANDON_MSGS = ("MAXFUN", "sufficiently small", "model increase", "multiple constraints", "NaN received")
@@ -29,7 +30,7 @@ ABANDON_MSGS = ("MAXFUN", "sufficiently small", "model increase", "multiple cons
 def cases(tier, seed):
     out = []
     i = 0
-    for t, n in (("enum", NENUM[tier]), ("proj", NPROJ[tier]), ("rand", NRAND[tier]), ("atmin", NMIN[tier]), ("grow", NGROW[tier])):
+    for t, n in (("enum", NENUM[tier]), ("proj", NPROJ[tier]), ("rand", NRAND[tier]), ("atmin", NMIN[tier]), ("grow", NGROW[tier]), ("regscaled", NREGSC[tier])):
         for _ in range(n):
             out.append(dict(i=i, seed=seed, type=t))
             i += 1
@@ -99,6 +100,26 @@ def make_cfg(seed, i, typ):
         if r() < 0.3:
             cfg["reg"] = dict(type="l1", lam=float(10 ** rng.uniform(-2, 0)))
             cfg["args"]["maxfun"] = min(cfg["args"]["maxfun"], 30)
+    elif typ == "regscaled":
+        # regulariser + scaling_within_bounds (+ restarts): far from optimal by finding D8, but the bookkeeping claims of C04 still
+        # apply - every objective value is sum(r^2) + h(x) in the USER's coordinates
+        n = int(rng.integers(1, 4))
+        spec = gen.gen_problem(rng, kinds=("linear", "sinlin", "rosen"), n=n, m=int(rng.integers(n, n + 3)))
+        lo = -(0.5 + 2 * rng.random(n))
+        hi = 0.5 + 2 * rng.random(n)
+        if r() < 0.5:
+            sh = rng.normal(size=n) * 2
+            lo, hi = lo + sh, hi + sh
+        up = {}
+        if r() < 0.7:
+            up["restarts.use_restarts"] = True
+            if r() < 0.3:
+                up["restarts.use_soft_restarts"] = False
+            up["restarts.max_unsuccessful_restarts"] = 3
+        cfg = dict(prob=spec, x0=(lo + (hi - lo) * rng.random(n)).tolist(), lower=lo.tolist(), upper=hi.tolist(), user_params=up,
+                   args=dict(maxfun=int(gen.pick(rng, [15, 25, 40])), rhobeg=0.1, rhoend=float(10.0 ** rng.uniform(-3, -1.5)),
+                             scaling_within_bounds=True),
+                   reg=dict(type=gen.pick(rng, ["l1", "l2"]), lam=float(10.0 ** rng.uniform(-1.5, 0.5))))
     else:  # grow: several new directions per iteration while growing (the 'full set' branch of add_new_direction_while_growing)
         n = int(rng.integers(2, 5))
         spec = gen.gen_problem(rng, kinds=("linear", "sinlin", "rosen"), n=n, m=int(rng.integers(n, n + 4)))
